@@ -49,9 +49,20 @@ def _canon_next(body):
         b = re.sub(r"\blet\s+mut\s+%s\s*;" % re.escape(name), "", b)
         b = re.sub(r"\blet\s+(?:mut\s+)?%s\s*=" % re.escape(name), name + " =", b)
         b = _sub(name, "§u", b)
-    m = re.search(r"\blet\s+(\w+)\s*=\s*TrieEntry::new\(", b)
+    # the block that yields an entry: immutable `let`s of pure expressions (the value read at the node, the end offset, the
+    # entry itself) are replaced by their defining expressions -- nothing between such a binding and its uses writes to what
+    # the expression reads (the array, the loop counter, the local node position) -- and `TrieEntry::new(v, e).end` is `e`
+    # (TrieEntry::new is checked to be `TrieEntry { value, end: offset }` by the caller)
+    m = re.search(r"if\s+Trie::has_leaf\(§u\)\s*\{(.*?)\}\s*\}\s*None\s*$", b, flags=re.S)
     if m:
-        b = _sub(m.group(1), "§r", b)
+        blk = m.group(1)
+        for _ in range(6):
+            lm = re.search(r"\blet\s+(\w+)\s*=\s*([^;]+);", blk)
+            if not lm:
+                break
+            blk = blk[:lm.start()] + _sub(lm.group(1), lm.group(2).strip(), blk[lm.end():])
+        blk = re.sub(r"TrieEntry::new\((.*),\s*([^,()]*)\)\.end", lambda x: x.group(2).strip(), blk)
+        b = b[:m.start(1)] + blk + b[m.end(1):]
     return _norm(b)
 
 
@@ -132,6 +143,8 @@ def gen():
     m = re.search(r"impl<'a>\s*Iterator\s+for\s+TrieEntryIter<'a>\s*\{(.*?)\n\}\n", t, flags=re.S)
     if not m:
         raise F.FactError("impl Iterator for TrieEntryIter not found")
+    if _norm(F.fn_body(t, "new", REL)) != "TrieEntry{value,end:offset}" or not re.search(r"pub\s+fn\s+new\(value:\s*u32,\s*offset:\s*usize\)\s*->\s*TrieEntry", t):
+        raise F.FactError("TrieEntry::new(value, offset) is no longer `TrieEntry { value, end: offset }`")
     nb = _canon_next(F.fn_body(m.group(1), "next", REL))
     shape = """
         let mut §n = self.node_pos;
@@ -142,10 +155,9 @@ def gen():
             if Trie::label(§u) != §k as usize { return None; }
             §n ^= Trie::offset(§u);
             if Trie::has_leaf(§u) {
-                let §r = TrieEntry::new(Trie::value(self.get(§n)), §i + 1);
-                self.offset = §r.end;
+                self.offset = §i + 1;
                 self.node_pos = §n;
-                return Some(§r);
+                return Some(TrieEntry::new(Trie::value(self.get(§n)), §i + 1));
             }
         }
         None"""
@@ -164,6 +176,11 @@ def gen():
     ml = re.search(r"TrieEntryIter\s*\{(.*)\}", cbs, flags=re.S)
     fields = _struct_fields(ml.group(1)) if ml else []
     fields = ["offset" if f == "offset:offset" else f for f in fields]
+    for k, f in enumerate(fields):
+        if re.fullmatch(r"\w+", f) and f != "offset":
+            lb = re.search(r"\blet\s+%s\s*=\s*([^;]+);" % re.escape(f), cbs)
+            if lb:
+                fields[k] = "%s:%s" % (f, _norm(lb.group(1)))
     if not mr or sorted(fields) != sorted(["node_pos:Trie::offset(%s)" % mr.group(1), "data:input", "trie:&self.array", "offset"]):
         raise F.FactError("common_prefix_iterator no longer starts at Trie::offset(array[0]) with the caller's input and offset")
     out.append("Definition ROOT_INDEX : N := 0%N.\n")
